@@ -58,7 +58,9 @@ PROP = dict(
     timeout=1800,
     rule="case = a real Agent (agent.New) with generated exit config (enabled?, 0-3 networks, 0-3 domain patterns) + a history of 4-14 (10%: 40-80) ops over a 3-network working set: "
          "ManageRoute add (metrics 0,1,5,7,65535; re-adds/updates frequent)/remove, opens (IPv4, IPv6, IPv4-mapped literals; names resolved through the handler's cache) dialled for real to loopback listeners, "
-         "state dumps (dynamic routes + allow list); concurrency: `sched` = two ManageRoute calls on one network in a fixed schedule (one held at the verif scheduling point between its two steps while the opposite call runs) "
+         "state dumps (dynamic routes + allow list); multi-address names resolved FOR REAL through a DNS server of the harness (exit.dns.servers): answer sets {permitted only, unpermitted only, "
+         "permitted-but-refusing first + unpermitted-but-listening later, both orders, A+AAAA mixes, empty}, opened on a port where every loopback address listens and on one where only unpermitted addresses listen; "
+         "the spec judges the address ACTUALLY connected to (reported by the listeners); concurrency: `sched` = two ManageRoute calls on one network in a fixed schedule (one held at the verif scheduling point between its two steps while the opposite call runs) "
          "and `race` = 2-4 goroutines x 20-60 (add; remove) of the same network; between ManageRoute calls the routing table is perturbed the way mesh traffic can: ROUTE_WITHDRAW / ROUTE_ADVERTISE frames from peers through Agent.processFrame "
          "(naming this agent or a peer as origin), peer-disconnect clean-up, stale expiry; every add/remove answer carries the manager's own dynamic-route list and the spec judges dials and the allow list against THAT list whatever the API answered; networks: nested/overlapping 127/8 nets, non-canonical host bits, IPv4-mapped spellings incl. ::ffff:0:0/96, ::1/128, ::/0, off-host nets; "
          "non-trivial = a dial happened, a route op succeeded/was refused, or a state dump",
@@ -67,7 +69,7 @@ PROP = dict(
         "MM/Model/C19.lean models net.IPNet.Contains byte for byte and IPNet.String() by the normal form it is a function of (T-diff compares keys and containment on IPv4/IPv6/IPv4-mapped networks)",
         "ASCII model of strings.ToLower / strings.TrimSpace for domain patterns (generated names and patterns are ASCII)",
         "four source facts about Agent.ManageRoute / handleStreamOpen / initComponents checked by regular expression on every run",
-        "DNS resolution is the resolver's answer (parameter of the model); T-diff injects answers through the handler's own cache",
+        "DNS resolution is the resolver's answer (parameter of the model: the first IPv4 record, else the first record); T-diff injects answers through the handler's own cache (op n:) and through real lookups against the harness's DNS server (op m:)",
     ],
     assumptions=[
         "concurrent ManageRoute calls are serialized by Agent.routeManageMu (fixes/C19-serialize-manage-route.patch; lock shape regenerated by tools/lockshape.go and decided in C19_manage_route_atomic / C19_steps_atomic), so a concurrent history is a sequence of the atomic add/remove of the model; goroutine scheduling inside a critical section and sync.Mutex itself are trusted",
